@@ -10,6 +10,8 @@ import (
 	"strings"
 
 	"golang.org/x/tools/go/packages"
+
+	"golang.org/x/tools/go/cfg"
 )
 
 // registration of an operator implementation for a pair of type ids
@@ -893,4 +895,103 @@ func regPos(r registration) token.Pos {
 		return r.site.Pos()
 	}
 	return r.call.Pos()
+}
+
+// ---------------------------------------------------------------------------
+// R14.8 searches decide by the equality function alone.
+//
+// Membership (~), containsAll, switch and the grouping built-ins look for an
+// element that is *equal* to a given value, where equal is the registered
+// equality of the language (a funcGen.BoolFunc). In the loop that compares the
+// candidates, no path may move on to the next candidate without having asked
+// the equality function: a pre-filter ("different type, cannot be equal")
+// makes the search disagree with `=`, for which 1 = 1.0 holds and 1 = "a" is
+// an error.
+
+func ruleR148(c *Ctx) {
+	vp := c.Pkg("value")
+	if vp == nil {
+		c.Undecided("package value", token.NoPos, "not found")
+		return
+	}
+	info := vp.TypesInfo
+	// the equality of the language: the BoolFunc field that the constructor of the = matrix (Equal) fills
+	var eqField types.Object
+	if fd := c.FuncDecl(vp, "", "Equal"); fd != nil {
+		ast.Inspect(fd.Body, func(x ast.Node) bool {
+			as, ok := x.(*ast.AssignStmt)
+			if !ok || len(as.Lhs) != 1 {
+				return true
+			}
+			if sel, ok := ast.Unparen(as.Lhs[0]).(*ast.SelectorExpr); ok && isNamed(info.TypeOf(sel), modPath+"/funcGen", "BoolFunc") {
+				if fs, ok := info.Selections[sel]; ok && fs.Kind() == types.FieldVal {
+					eqField = fs.Obj()
+				}
+			}
+			return true
+		})
+	}
+	if eqField == nil {
+		c.Undecided("value.Equal#equality-field", token.NoPos, "the field that holds the equality function of the language was not found")
+		return
+	}
+	n := 0
+	forEachFuncBody([]*packages.Package{vp}, func(pkg *packages.Package, fn ast.Node, body *ast.BlockStmt) {
+		g := c.CFG(fn)
+		if g == nil {
+			return
+		}
+		k := 0
+		inspectNoLit(body, func(x ast.Node) bool {
+			call, ok := x.(*ast.CallExpr)
+			if !ok || len(call.Args) < 3 {
+				return true
+			}
+			fsel, ok := ast.Unparen(call.Fun).(*ast.SelectorExpr)
+			if !ok {
+				return true
+			}
+			if fs, ok := info.Selections[fsel]; !ok || fs.Obj() != eqField {
+				return true
+			}
+			// the innermost enclosing range loop
+			var loop *ast.RangeStmt
+			for q := c.Parent(call); q != nil && q != fn; q = c.Parent(q) {
+				if rs, ok := q.(*ast.RangeStmt); ok {
+					loop = rs
+					break
+				}
+				if _, ok := q.(*ast.ForStmt); ok {
+					break
+				}
+				if _, ok := q.(*ast.FuncLit); ok {
+					break
+				}
+			}
+			if loop == nil {
+				return true
+			}
+			n++
+			k++
+			key := fmt.Sprintf("%s#search-by-equality[%d]", c.FuncName(fn)+litSuffix(c, fn), k)
+			bodyBlk, loopBlk, _ := g.RangeBlocks(loop)
+			if bodyBlk == nil || loopBlk == nil {
+				c.Undecided(key, loop.Pos(), "loop not found in the control flow graph")
+				return true
+			}
+			asks := func(y ast.Node) bool {
+				return containsNode(y, func(z ast.Node) bool { return z == ast.Node(call) })
+			}
+			skipped := g.PathEdgesFrom(bodyBlk, func(b *cfg.Block) bool { return b == loopBlk }, asks, nil)
+			if skipped {
+				c.Violation(key, loop.Pos(), "the loop that looks for an equal element can move on to the next candidate without calling the equality function %s: a candidate is rejected by some other test (its type, its kind), so the search disagrees with `=` (1 ~ [1.0] is false although 1 = 1.0; 1 ~ [\"a\"] is false although 1 = \"a\" is an error)", nodeStr(c.Fset, call.Fun))
+			} else {
+				c.OK(key, loop.Pos(), "every candidate of the loop is handed to the equality function before the loop moves on")
+			}
+			return true
+		})
+	})
+	if n < 2 {
+		c.Undecided("value#searches-by-equality", token.NoPos, "only %d loops that compare candidates with the equality function found", n)
+	}
 }
